@@ -162,7 +162,7 @@ def text_of_cps(a):
 # worker processes (orjson importable / blocked; Pydantic / fallback backend)
 # ---------------------------------------------------------------------------------------------
 class Worker:
-    def __init__(self, block_orjson=False, force_fallback=False, module="verifpy.json_worker"):
+    def __init__(self, block_orjson=False, force_fallback=False, module="verifpy.json_worker", slot=0):
         env = dict(os.environ)
         env["PYTHONPATH"] = str(core.ROOT / "py") + os.pathsep + env.get("PYTHONPATH", "")
         env["PYTHONDONTWRITEBYTECODE"] = "1"
@@ -177,13 +177,19 @@ class Worker:
             stderr=subprocess.DEVNULL, env=env, text=True, bufsize=1,
         )
 
-    def call(self, req):
+    def send(self, req):
         self.p.stdin.write(json.dumps(req, ensure_ascii=True) + "\n")
         self.p.stdin.flush()
+
+    def recv(self):
         line = self.p.stdout.readline()
         if not line:
             raise RuntimeError(f"worker died (rc={self.p.poll()})")
         return json.loads(line)
+
+    def call(self, req):
+        self.send(req)
+        return self.recv()
 
     def close(self):
         try:
